@@ -216,3 +216,36 @@ def apalache(module, init, inv, length, timeout=600):
     if not ok and "EXITCODE: ERROR (12)" not in p.stdout:
         raise TLCFailure("apalache failed: %s\n%s" % (" ".join(cmd), p.stdout[-1500:]))
     return ok, " ".join(cmd)
+
+
+def simulate_final_states(module, cfg, num, depth, seed, tag, timeout=1800):
+    """tlc -simulate file=...: one file per behaviour; return the parsed LAST state (dict var -> value) of each."""
+    import glob
+    work = os.path.join(OUT, "sim-%s-%d" % (tag, os.getpid()))
+    shutil.rmtree(work, ignore_errors=True)
+    os.makedirs(work)
+    res = run(module, cfg=cfg, workers=1, simulate=dict(num=num, file=os.path.join(work, "tr")), depth=depth, seed=seed, tag="sim-" + tag, timeout=timeout)
+    finals = []
+    for f in sorted(glob.glob(os.path.join(work, "tr_*"))):
+        text = open(f).read()
+        blocks = text.split("\nSTATE_")
+        if len(blocks) < 2:
+            continue
+        last = blocks[-1]
+        body = last.split("==", 1)[1]
+        cur, name, buf = {}, None, []
+        for line in body.splitlines():
+            if line.startswith("/\\ "):
+                if name:
+                    cur[name] = tlaval.parse(" ".join(buf))
+                m = re.match(r"/\\ (\w+) = (.*)", line)
+                name, buf = m.group(1), [m.group(2)]
+            elif line.startswith("\\*") or line.startswith("====") or not line.strip():
+                continue
+            else:
+                buf.append(line.strip())
+        if name:
+            cur[name] = tlaval.parse(" ".join(buf))
+        finals.append(cur)
+    shutil.rmtree(work, ignore_errors=True)
+    return res, finals
